@@ -16,8 +16,12 @@ type SSTableMergeIteratorContext struct {
 
 func (s SSTableMergeIteratorContext) Next() ([]byte, []byte, error) {
 	k, v, err := s.iterator.Next()
-	if errors.Is(err, Done) {
-		return nil, nil, pq.Done
+	if err != nil {
+		if errors.Is(err, Done) {
+			return nil, nil, pq.Done
+		}
+		// any other error of the underlying iterator must reach the merger, never be merged as a (nil, nil) record
+		return nil, nil, err
 	}
 	return k, v, nil
 }
